@@ -6,6 +6,7 @@ From Verif Require Import Base.Bytes Model.Chain Model.GoText Model.Envelope Mod
 From Verif Require Model.Schema Model.Validate.
 From Verif Require Corr.C05 Proofs.ValidateBase Proofs.ValidateProofs.
 From Verif Require Import Proofs.EvalLogKit Proofs.EvalTotalOrder Proofs.EvalLog2Valid.
+From Verif Require Proofs.EvalTotalFail.
 From Verif Require Import Proofs.GateLinkDefs Proofs.GateLinkSpec.
 
 Lemma filter_all_false {A} (f : A -> bool) l : (forall x, In x l -> f x = false) -> filter f l = [].
@@ -176,7 +177,16 @@ Proof.
   - destruct l; try discriminate. cbv zeta. cbn [fst snd]. intros H. rewrite H. cbn [negb andb].
     apply Nat.eqb_eq in H.
     match type of H with (length ?a + length ?b + length ?d)%nat = _ =>
-      assert (length a = 0%nat) as -> by lia; assert (length d = 0%nat) as -> by lia end. reflexivity.
+      assert (length a = 0%nat) as Ha by lia; assert (d = []) as Hd by (apply length_zero_nil; lia) end.
+    rewrite Ha, Hd. reflexivity.
+Qed.
+
+(* a value whose top is unknown contains an unknown *)
+Lemma unk_top_contains l rest : l_unk l = true -> contains_unknowns (l :: rest) = true.
+Proof.
+  intros Hu. unfold contains_unknowns. destruct (export big_fuel (l :: rest)) as [v|] eqn:E; [|reflexivity].
+  destruct (x_has_unknown v) eqn:Hx; [reflexivity|]. apply no_unknown_top in Hx.
+  rewrite (export_top_unk _ _ _ _ E), Hu in Hx. discriminate.
 Qed.
 
 (* rejected => at least one diagnostic, unless the inputs contain unknowns *)
@@ -184,8 +194,8 @@ Theorem validate_reject_has_diag (insch : in_schema) (iv : chain) :
   fst (validate (AccIn insch) iv) = false -> contains_unknowns iv = false -> 1 <= snd (validate (AccIn insch) iv).
 Proof.
   destruct insch as [|props required closed]; [discriminate|]. unfold validate.
-  destruct iv as [|l rest]; [cbn; lia|]. destruct (l_unk l).
-  - destruct (top_sch (l :: rest)); cbn; try discriminate; lia.
+  destruct iv as [|l rest]; [cbn; lia|]. destruct (l_unk l) eqn:Hlu.
+  - intros _ Hcu. rewrite (unk_top_contains _ _ Hlu) in Hcu. discriminate.
   - destruct l; try (cbn; lia). cbv zeta. cbn [fst snd]. intros H Hcu. rewrite H, Hcu. cbn [negb andb].
     match goal with |- 1 <= (if Nat.eqb ?n 0 then _ else _) => destruct (Nat.eqb n 0) eqn:E; [lia|apply Nat.eqb_neq in E; lia] end.
 Qed.
@@ -199,37 +209,44 @@ Proof.
   - pose proof (validate_reject_has_diag _ _ Hf Hcu). apply N.eqb_neq. lia.
 Qed.
 
-(* the silent corner, exactly: a rejection without diagnostic happens only for a known object that has every
-   required key, only well-typed declared properties, at least one key that a CLOSED record does not declare,
-   and an unknown somewhere inside *)
-Theorem validate_silent_corner props required closed (iv : chain) :
+(* the silent corners, exactly.  A rejection without diagnostic happens only
+   (a) for inputs that are an unknown of schema `false` (eval_validate.go:191-193), or
+   (b) for a known object that has every required key and an unknown somewhere inside, where every offending member is
+       silent: a key that a CLOSED record does not declare (rejected by the `false` subschema), or a declared property
+       whose value is an unknown of schema `false` *)
+Theorem validate_silent_corner_exact props required closed (iv : chain) :
   validate (AccIn (InRecord props required closed)) iv = (false, 0) ->
   contains_unknowns iv = true
-  /\ closed = true
-  /\ (forall r, In r required -> In r (keys iv))
-  /\ (exists k, In k (keys iv) /\ alookup k props = None)
-  /\ (exists sec unk sc ps rest, iv = LObj sec unk sc ps :: rest /\ unk = false).
+  /\ (silent_never iv = true
+      \/ ((forall r, In r required -> In r (keys iv))
+          /\ ((closed = true /\ exists k, In k (keys iv) /\ alookup k props = None)
+              \/ (exists p, In p props /\ In (fst p) (keys iv) /\ silent_never (property (fst p) iv) = true))
+          /\ (exists sec unk sc ps rest, iv = LObj sec unk sc ps :: rest /\ unk = false))).
 Proof.
   unfold validate. destruct iv as [|l rest]; [discriminate|]. destruct (l_unk l) eqn:Hlu.
-  - destruct (top_sch (l :: rest)); discriminate.
+  - intros H. split; [exact (unk_top_contains _ _ Hlu)|]. left. unfold silent_never. rewrite Hlu.
+    destruct (top_sch (l :: rest)); try discriminate H. reflexivity.
   - destruct l as [a b c0 d|a b c0 d|sec unk sc ps]; try discriminate. cbn [l_unk] in Hlu. subst unk.
     set (c := LObj sec false sc ps :: rest). cbv zeta.
     match goal with |- (Nat.eqb (length ?a + length ?b + length ?d) 0, _) = _ -> _ =>
       set (missing := a); set (extra := b); set (badty := d) end.
+    match goal with |- context [length (filter ?q badty)] => set (loud := filter q badty) end.
     intros H. injection H as Hok Hn. rewrite Hok in Hn. cbn [negb andb] in Hn.
-    destruct (Nat.eqb (length missing + length badty) 0) eqn:E.
+    destruct (Nat.eqb (length missing + length loud) 0) eqn:E.
     2:{ apply Nat.eqb_neq in E. lia. }
     apply Nat.eqb_eq in E. destruct (contains_unknowns c) eqn:Hcu; [|discriminate].
     apply Nat.eqb_neq in Hok.
     assert (missing = []) as Hmiss by (apply length_zero_nil; lia).
-    assert (extra <> []) as Hextra by (intros Hx; rewrite Hx in Hok; cbn in Hok; lia).
-    split; [reflexivity|]. split.
-    { destruct closed; [reflexivity|]. exfalso. apply Hextra. reflexivity. }
-    split.
+    assert (loud = []) as Hloud by (apply length_zero_nil; lia).
+    split; [reflexivity|]. right. split.
     { intros r Hr. pose proof (filter_nil_all _ _ Hmiss r Hr) as Hin. apply negb_false_iff in Hin.
       apply existsb_eqb_in in Hin. exact Hin. }
     split.
-    { destruct closed; [|exfalso; apply Hextra; reflexivity].
+    2:{ exists sec, false, sc, ps, rest. split; reflexivity. }
+    destruct badty as [|p bt] eqn:Eb.
+    + left.
+      assert (extra <> []) as Hextra by (intros Hx; rewrite Hx, Hmiss in Hok; cbn in Hok; lia).
+      destruct closed; [|exfalso; apply Hextra; reflexivity]. split; [reflexivity|].
       destruct extra as [|k ex] eqn:Ex; [contradiction|].
       assert (In k (filter (fun k0 => negb (existsb (fun p => String.eqb (fst p) k0) props)) (keys c))) as Hin
         by (fold extra; rewrite Ex; now left).
@@ -238,9 +255,52 @@ Proof.
       cbn in Ek. subst k0.
       assert (existsb (fun p : string * string => String.eqb (fst p) k) props = true) as Ht;
         [|rewrite Ht in Hneg; discriminate].
-      apply existsb_exists. exists (k, ty). split; [exact Hin|cbn; apply String.eqb_refl]. }
-    exists sec, false, sc, ps, rest. split; reflexivity.
+      apply existsb_exists. exists (k, ty). split; [exact Hin|cbn; apply String.eqb_refl].
+    + right. exists p.
+      assert (In p badty) as Hin by (rewrite Eb; now left).
+      unfold badty in Hin. apply filter_In in Hin. destruct Hin as [Hp Hcond].
+      apply andb_true_iff in Hcond. destruct Hcond as [Hk _]. apply existsb_eqb_in in Hk.
+      split; [exact Hp|]. split; [exact Hk|].
+      pose proof (filter_nil_all _ _ Hloud p (or_introl eq_refl)) as Hs. apply negb_false_iff in Hs. exact Hs.
 Qed.
+
+(* outside the decidable class [EvalTotalFail.never_arg] (the inputs themselves, or the value of a declared property, are
+   an unknown of schema `false`) the only rejection without diagnostic is the undeclared key of a CLOSED record *)
+Theorem validate_silent_corner_partial props required closed (iv : chain) :
+  EvalTotalFail.never_arg (AccIn (InRecord props required closed)) iv = false ->
+  validate (AccIn (InRecord props required closed)) iv = (false, 0) ->
+  contains_unknowns iv = true
+  /\ closed = true
+  /\ (forall r, In r required -> In r (keys iv))
+  /\ (exists k, In k (keys iv) /\ alookup k props = None)
+  /\ (exists sec unk sc ps rest, iv = LObj sec unk sc ps :: rest /\ unk = false).
+Proof.
+  intros Hn H. apply validate_silent_corner_exact in H. destruct H as (Hcu & H).
+  unfold EvalTotalFail.never_arg in Hn. apply orb_false_iff in Hn. destruct Hn as [Hn1 Hn2].
+  destruct H as [H|(Hreq & H & Hobj)]; [rewrite H in Hn1; discriminate|].
+  destruct H as [(Hc & Hk)|(p & Hp & _ & Hs)].
+  - repeat split; assumption.
+  - exfalso. assert (existsb (fun p => silent_never (property (fst p) iv)) props = true) as Ht
+      by (apply existsb_exists; exists p; split; assumption).
+    rewrite Ht in Hn2. discriminate.
+Qed.
+
+(* inside the class the old characterisation is false: an OPEN record, inputs that are an unknown of schema `false` *)
+Theorem validate_silent_corner_refuted :
+  exists props required closed iv,
+    validate (AccIn (InRecord props required closed)) iv = (false, 0) /\ closed = false
+    /\ (forall sec unk sc ps rest, iv <> LObj sec unk sc ps :: rest)
+    /\ EvalTotalFail.never_arg (AccIn (InRecord props required closed)) iv = true.
+Proof.
+  exists [], [], false, [unknown_layer false ScNever]. split; [vm_compute; reflexivity|]. split; [reflexivity|].
+  split; [|vm_compute; reflexivity]. intros sec unk sc ps rest. discriminate.
+Qed.
+
+(* ... and a KNOWN object of an open record whose declared property is an unknown of schema `false` *)
+Theorem validate_silent_corner_refuted_member :
+  validate (AccIn (InRecord [("region", "string")] [] false))
+    [LObj false false (ScObject [("region", ScNever)] None) [("region", [unknown_layer false ScNever])]] = (false, 0).
+Proof. vm_compute. reflexivity. Qed.
 
 (* ---- the two models side by side (concrete inputs): Open reached <-> accepted, error reported <-> rejected ---- *)
 Theorem gate_models_agree P re D f (insch : in_schema) (iv : chain) (xin : xval) :
